@@ -97,6 +97,10 @@ var vfC09Apart = [][2]string{
 	{"POINT(0 0)", "MULTILINESTRING((10 -1,-1 10),(0 8,0 3))"},
 	{"LINESTRING(0 0,0 -5)", "LINESTRING(-1 10,10 -1,12 0,8 1,3 1)"},
 	{"MULTILINESTRING((0 0,10 0),(0 20,10 20),(0 40,10 40),(0 60,10 60),(0 80,10 80))", "MULTILINESTRING((30 1,40 1),(30 21,40 21),(12 79,40 79),(30 61,40 61),(30 41,40 41))"},
+	// the searched operand mixes point and segment records; the nearest feature is an early segment
+	{"POINT(5 1)", "GEOMETRYCOLLECTION(POINT(100 100),LINESTRING(0 0,10 0,20 0,30 0,40 0))"},
+	{"LINESTRING(5 1,5 9)", "GEOMETRYCOLLECTION(MULTIPOINT(100 100,-50 3),POLYGON((0 0,40 0,40 -10,0 -10,0 0)),LINESTRING(60 60,70 70))"},
+	{"GEOMETRYCOLLECTION(POINT(-5 -5),LINESTRING(0 0,0 10))", "GEOMETRYCOLLECTION(POINT(90 90),POINT(80 80),LINESTRING(3 20,3 5,30 5),POINT(70 70))"},
 }
 
 // The value of Distance on concrete operands that do not intersect (several
